@@ -264,6 +264,7 @@ mod real_run
                     DirPart::Table => { let _ = fs::remove_file(table_path()); },
                 },
                 Op::DamageState{..} => {},
+                Op::Restyle{..} => {},
                 Op::Build{ goal, .. } =>
                 {
                     let mut printer = RecPrinter::new();
